@@ -240,12 +240,16 @@ class Generator(ABC):
         )
 
         def comment_filter(content: str):
+            def neutralise(line: str) -> str:
+                # the text must not be able to end the comment
+                return line.replace('*/', '&#42;/')
+
             output = ""
             if self.comment_start_string is not None:
                 output += f'{self.comment_start_string}\n'
             output += self.comment_line_prefix
             # split at every line boundary that a compiler or a later filter (indent) recognises, so that each line gets the prefix
-            output += f'\n{self.comment_line_prefix}'.join(content.splitlines() or [''])
+            output += f'\n{self.comment_line_prefix}'.join(neutralise(line) for line in content.splitlines() or [''])
             if self.comment_end_string is not None:
                 output += f'\n{self.comment_end_string}'
             return output
